@@ -219,6 +219,12 @@ def check_cfg(F, R, cfg):
             inst = "%s:%s" % (short_fn(f), name)
             good, msg = heap_ok(F, fv, l, ty)
             (R.ok if good else R.viol)("C14.heap", I(inst), msg, *(() if good else (fv.loc(fv.locals[l].get("line")),)))
+    # ------------------------------------------------------------------ 4. the single-allocation premise of the heap rule
+    # The Straus digit buffer is `scalars.map(..).collect::<Vec<_>>()` on a caller-supplied iterator: it is one allocation (the one that
+    # is wiped) only if the iterator's size hint is exact; with a range hint the Vec grows and frees unwiped blocks.  The public
+    # constant-time entry point establishes exactness with assert_eq!(s_hi, Some(s_lo)) before anything is computed.
+    if alloc:
+        exact_size(F, R, I)
     vec_backend = any("curve25519_dalek_backend=simd" in c for c in F.crates["curve25519_dalek"].cfg)
     R.floor("C14.heap", I("scalar-derived heap buffers found"), n_heap, (3 if vec_backend else 2) if alloc else 0)
     R.extra.setdefault("heap_scan", {})[cfg] = {"functions_reached": len(T.reached), "heap_buffers": n_heap}
@@ -296,3 +302,50 @@ def heap_ok(F, fv, l, ty):
             # a release reachable without passing a wipe; tolerate the case where the wipe is in the same block before
             return False, "a normal path releases the buffer (bb%d) without passing through Zeroize::zeroize" % e
     return True, "Zeroize::zeroize(&mut buf) on every normal path before the buffer is released"
+
+
+def exact_size(F, R, I):
+    from pathlib2 import Guard, dominated
+    from mirlib import expr_of
+    import ex
+    n = 0
+    for f in sorted(F.fns.values(), key=lambda f: f["key"]):
+        if "mir" not in f or f.get("name") != "multiscalar_mul" or not re.search(r"traits::MultiscalarMul$", f.get("trait") or "") or f["crate"] != "curve25519_dalek" \
+                or "backend::" in (f.get("self_ty") or ""):
+            continue
+        fv = view(F, f)
+        fwd = [(bi, t) for bi, t in fv.calls if re.search(r"backend::straus_multiscalar_mul|scalar_mul::straus::.*multiscalar_mul", cname(t))]
+        if not fwd:
+            continue      # a wrapper that delegates to another MultiscalarMul impl (Ristretto -> Edwards), or the backend routine itself
+        n += 1
+
+        def pred(fv_, t):
+            # Option<usize>::eq(&hint.1, &Some(hint.0)) with both sides from one size_hint() call on the scalar iterator (parameter 1)
+            a, b = expr_of(fv_, t["args"][0], 12), expr_of(fv_, t["args"][1], 12)
+            both = ("tuple", a, b)
+            hints = ex.find(both, lambda x: x[0] == "call" and re.search(r"Iterator>::size_hint$", x[1]))
+            if not hints:
+                return False
+            def from_param1(h):
+                if ex.mentions_arg(h, 1):
+                    return True
+                for loc in ex.find(h, lambda x: x[0] == "local"):
+                    for d in fv_.defs.get(loc[1], []):
+                        if d.kind == "call" and not d.via_mutref and any(ex.mentions_arg(expr_of(fv_, a_, 6), 1) for a_ in d.term["args"]):
+                            return True
+                return False
+            from_scalars = [h for h in hints if from_param1(h)]
+            upper = ex.find(both, lambda x: x[0] == "proj" and str(x[2]).replace("*", "").endswith(".1") and ex.find(x[1], lambda y: y[0] == "call" and re.search(r"size_hint$", y[1])))
+            some_lower = ex.find(both, lambda x: x[0] == "agg" and "Option" in str(x[1]) and x[2] and ex.find(x[2][0], lambda y: y[0] == "proj" and str(y[2]).replace("*", "").endswith(".0")))
+            return bool(from_scalars) and bool(upper) and bool(some_lower)
+        g = Guard("scalars.size_hint().1 == Some(scalars.size_hint().0)", r"core::option::Option<usize> as core::cmp::PartialEq>::eq$", want=1, arg_pred=pred,
+                  alt=[(r"core::option::Option<usize> as core::cmp::PartialEq>::ne$", 0)])
+        es = g.edges(fv)
+        ok = bool(es) and dominated(fv, [bi for bi, _ in fwd], es)
+        inst = I(short_fn(f))
+        if ok:
+            R.ok("C14.exact_size", inst, "the Straus call is dominated by `size_hint().1 == Some(size_hint().0)` of the scalar iterator: the digit buffer is collected in one allocation")
+        else:
+            R.viol("C14.exact_size", inst, "the constant-time multiscalar entry point reaches Straus without establishing that the scalar iterator's size hint is exact: "
+                   "`collect()` may then grow the digit buffer and free unwiped blocks holding secret digits", fv.loc())
+    R.floor("C14.exact_size", I("constant-time multiscalar entry points forwarding to Straus"), n, 1)
